@@ -31,6 +31,9 @@ type MultiRequest struct {
 	Rounds [][]RunSpec       `json:"rounds"`
 	// RePrepareBetween prepares the same text a third time between rounds (and discards it).
 	RePrepareBetween bool `json:"re_prepare_between,omitempty"`
+	// SharedParsed: the workflow text is parsed once and every preparation (the workflow, its twin,
+	// the ones between rounds) is made by one executor from that parsed object.
+	SharedParsed bool `json:"shared_parsed,omitempty"`
 	// ConcurrentPrepares prepares the text this many times at the same time first (C17).
 	ConcurrentPrepares int         `json:"concurrent_prepares,omitempty"`
 	Plan               vsched.Plan `json:"plan,omitempty"`
@@ -88,7 +91,11 @@ func RunMulti(req *MultiRequest) *MultiAnswer {
 		}
 		pwg.Wait()
 	}
-	wf, perr, ppanic := env.Prepare(req.Main, req.Files)
+	prepare := func() (workflow.ExecutableWorkflow, error, string) { return env.Prepare(req.Main, req.Files) }
+	if req.SharedParsed {
+		prepare = env.SharedPreparer(req.Main, req.Files)
+	}
+	wf, perr, ppanic := prepare()
 	if ppanic != "" || perr != nil {
 		ans.PreparePanic = ppanic
 		if perr != nil {
@@ -96,7 +103,7 @@ func RunMulti(req *MultiRequest) *MultiAnswer {
 		}
 		return ans
 	}
-	twin, perr, ppanic := env.Prepare(req.Main, req.Files)
+	twin, perr, ppanic := prepare()
 	if ppanic != "" || perr != nil {
 		ans.PreparePanic = ppanic
 		if perr != nil {
@@ -175,7 +182,7 @@ func RunMulti(req *MultiRequest) *MultiAnswer {
 		ans.Rounds = append(ans.Rounds, results)
 		if req.RePrepareBetween {
 			w.SetPhase("prepare") // no run is in progress between rounds
-			_, perr, ppanic := env.Prepare(req.Main, req.Files)
+			_, perr, ppanic := prepare()
 			w.SetPhase("run")
 			if perr != nil || ppanic != "" {
 				ans.PrepareErr = fmt.Sprintf("re-preparing the same text failed: %v %s", perr, ppanic)
